@@ -1969,7 +1969,7 @@ fn main() {
 			// (chain parameters, depth of the reorganisation, headers of the winning fork known before the compaction)
 			// UserTesting: cut-through horizon 70 but state-sync threshold 20 — the only testing parameter set in
 			// which the two differ, as they do on mainnet (10080 / 2880)
-			let user_testing = matches!(k % 6, 3 | 4);
+			let user_testing = matches!(k % 8, 3 | 4);
 			if user_testing {
 				use grin_core::global::{self, ChainTypes};
 				global::set_global_chain_type(ChainTypes::UserTesting);
@@ -1977,23 +1977,36 @@ fn main() {
 			}
 			let horizon = grin_core::global::cut_through_horizon() as usize;
 			let threshold = grin_core::global::state_sync_threshold() as usize;
-			let (depth, headers_first) = match k % 6 {
-				0 => (1usize, false),
-				1 => (horizon, false),
-				2 => (3, true),
-				3 => ((threshold + horizon) / 2, false),
-				4 => (horizon - 1, true),
-				_ => (horizon - 1, true),
+			// pairs_at: the spent sibling pairs were created in the block that is the compaction horizon (0), one
+			// below (-1) or one above (+1) it, instead of being old outputs
+			let (depth, headers_first, pairs_at): (usize, bool, Option<i64>) = match k % 8 {
+				0 => (1usize, false, None),
+				1 => (horizon, false, None),
+				2 => (3, true, None),
+				3 => ((threshold + horizon) / 2, false, None),
+				// (the competing fork is two blocks long: the body must not be more than ~20 blocks higher than the
+				// header chain, or the node declines to compact — its archive-header look-up goes through the header chain)
+				4 => (threshold + 2, true, None),
+				5 => (2, false, Some(0)),
+				6 => (horizon - 1, true, Some(1)),
+				_ => (4, false, Some(-1)),
 			};
+			if pairs_at.is_some() {
+				run.count("chain_compaction_reorg_scenarios.pairs_created_at_the_horizon_block", 1);
+			}
 			run.count(if user_testing { "chain_compaction_reorg_scenarios.user_testing_parameters" } else { "chain_compaction_reorg_scenarios.automated_testing_parameters" }, 1);
 			if headers_first {
 				run.count("chain_compaction_reorg_scenarios.headers_of_the_winning_fork_first", 1);
 			}
 			let seed = run.seed ^ ((k as u64 + 1).wrapping_mul(0x9E37_79B9_7F4A_7C15));
 			let dir = sc.sub(&format!("cr{}", k));
-			match catch(|| vcommon::scenarios::compaction_reorg_scenario_ex(seed, depth, &dir, headers_first)) {
+			match catch(|| vcommon::scenarios::compaction_reorg_scenario_opts(seed, depth, &dir, headers_first, pairs_at)) {
 				Ok(Ok(st)) => {
 					run.count("chain_compaction_reorg_scenarios_completed", 1);
+					if let Some(e) = &st.compaction_declined {
+						run.count("chain_compaction_reorg_scenarios.compaction_declined_by_the_node", 1);
+						run.extra("compaction_declined_example", json!(e));
+					}
 					run.count("chain_compaction_reorg_state_comparisons", st.state_comparisons);
 					if st.compaction_moved_tail {
 						run.count("chain_compaction_reorg_scenarios_with_effective_compaction", 1);
@@ -2040,7 +2053,7 @@ fn main() {
 	std::thread::scope(|s| {
 		if n_chain > 0 {
 			s.spawn(|| {
-				run.spawn_workers(n_chain + run.tier.pick(4, 6), &[], run.tier.pick(300, 900));
+				run.spawn_workers(n_chain + run.tier.pick(6, 8), &[], run.tier.pick(300, 900));
 			});
 		}
 		for _ in 0..n_threads {
@@ -2126,7 +2139,12 @@ fn main() {
 		run.require(
 			"compaction x reorg scenarios (spender of sibling pairs right above the fork point)",
 			run.counter("chain_compaction_reorg_scenarios_with_effective_compaction"),
-			run.tier.pick(4, 6),
+			run.tier.pick(6, 8),
+		);
+		run.require(
+			"compaction x reorg scenarios spending sibling pairs created in the horizon block",
+			run.counter("chain_compaction_reorg_scenarios.pairs_created_at_the_horizon_block"),
+			1,
 		);
 		run.require(
 			"compaction x reorg scenarios under UserTesting parameters (horizon 70, state-sync threshold 20)",
